@@ -67,7 +67,8 @@ pub fn check_edit(rep: &mut Report, model: &mut Model, cfg: &Cfg, ops: &[Op], b:
         let ok = ru.files.get(n).map(|u| u.starts_with(c)).unwrap_or(c.is_empty());
         if !ok {
             rep.violation("oracle", "C04/auth-le-unauth", sig("auth-not-prefix-of-unauth"),
-                &format!("{n:?}: authenticated result is not a prefix of the unauthenticated one"), case());
+                &format!("{n:?}: authenticated result ({} bytes) is not a prefix of the unauthenticated one ({:?} bytes; unauthenticated is a prefix of the original: {:?})",
+                    c.len(), ru.files.get(n).map(|u| u.len()), ru.files.get(n).map(|u| spec.get(n).map(|o| o.starts_with(u)))), case());
             return false;
         }
     }
